@@ -18,6 +18,7 @@ OUTPUTS = {
     'gen_bhref': ['Gen.BHRefF', 'Gen.BHRefR'],
     'gen_qcd': ['Gen.QcdSrcF', 'Gen.QcdSrcR'],
     'gen_eff': ['Gen.EffSrcF', 'Gen.EffSrcR'],
+    'gen_kin': ['Gen.ConvSrcF', 'Gen.ConvSrcR'],
 }
 
 
@@ -36,7 +37,7 @@ def main(strict=False):
         pass
     except Exception as e:
         status['py2lean'] = repr(e)[:400]
-    for gen in ('gen_classtable', 'gen_adim', 'gen_bhref', 'gen_qcd', 'gen_eff'):
+    for gen in ('gen_classtable', 'gen_adim', 'gen_bhref', 'gen_qcd', 'gen_eff', 'gen_kin'):
         try:
             mod = __import__(gen)
         except ImportError:
